@@ -68,6 +68,10 @@ REGRESSION = [
     {"row": 14, "text": "1 U.S. 1 (1999). … 2 F.2d 2 (2005)"},
     {"row": 14, "text": "1 U.S. 1 (1999). and 2 F.2d 2 (2005)"},
     {"row": 15, "text": "Foo v. Bar (2100) 1 U.S. 1"},
+    # found by this layer (not in DESIGN section 7): two-step merge loses a supra citation whose span equals an
+    # added reference's span (C03 keeps_non_references); extraction depends on PYTHONHASHSEED (full vs short)
+    {"row": 0, "text": "Bell v. Supra, 1 U.S. 1 (1999). See Supra at 5."},
+    {"row": 0, "text": "Bell v Brown, 2 T.C. at 82103, 7 S. Ct. 352"},
     # witnesses quoted in properties.jsonl / DESIGN section 6 that are not table rows
     {"row": 0, "text": "A v. B, 1 U.S. 1, 2 S. Ct. 2 (1999). Foo v. Bar, 3 F.3d 3 (2d Cir. 2000); Id. at 5."},
     {"row": 0, "markup": "<p><i>Foo</i> v. <i>Bar,</i> 1 U.S. 1 (1999). In <i>Foo</i>, the court held. Foo at 12.</p>"},
